@@ -96,10 +96,163 @@ def plainc(m):
     return (p, f"{p}.new", f"{p}.update_mut", f"{p}.reset", f"{p}.finalize_reset")
 
 
-# forward declarations of the hashing modules whose functions are translated below (the wrappers need their consts)
-HSHA1 = DMod(name="hashing_sha1", file="src/hashing/sha1.rs", prefix="HSha1.")
-HRIPEMD = DMod(name="hashing_ripemd160", file="src/hashing/ripemd160.rs", prefix="HRipemd160.")
-HSHA2 = DMod(name="hashing_sha2", file="src/hashing/sha2/mod.rs", macros=["digest"], prefix="HSha2.")
+# ===================================================================================================== src/hashing/{sha1,ripemd160}.rs
+
+def FIXEDBUF(n):
+    return TExt("Impl.FixedBuffer", name="FixedBuffer", N=n)
+
+
+# `cryptoutil::FixedBuffer<N>`: the MODEL's functions (Impl/FixedBuffer.lean; tied by tools/ktx_glue.py, Props/C01/GlueTieMd.lean).
+# The `FnMut(&[u8])` argument is the pair (function on the captured state, the captured state).
+FB_METHODS = {
+    ("FixedBuffer", "input"): Ext("Impl.FixedBuffer.input {self.N} {self} {0} {1} {1.st}", args=["val", "closure"], mut_self=True, fails="option"),
+    ("FixedBuffer", "standard_padding"): Ext("Impl.FixedBuffer.standard_padding {self.N} {self} {0} {1} {1.st}", args=["val", "closure"], mut_self=True, fails="option"),
+    ("FixedBuffer", "full_buffer"): Ext("Impl.FixedBuffer.full_buffer {self.N} {self}", mut_self=True, ret=lambda want, rty: TBytes(rty.N), fails="option"),
+    ("FixedBuffer", "reset"): Ext("Impl.FixedBuffer.reset {self}", mut_self=True),
+}
+FB_NEW = Ext("Impl.FixedBuffer.new {want.N}", ret=lambda want, rty: want)
+FB_PLACE = {("FixedBuffer", "next"): "Impl.FixedBuffer.next_write {self} {I} {v}"}
+
+SHA1_HASH = Ty("rec", "Spec.Sha1.Hash", fields=["a", "b", "c", "d", "e"], elem=TWord(32))
+HSHA1 = DMod(
+    name="hashing_sha1", file="src/hashing/sha1.rs", prefix="HSha1.",
+    words={"u32": 32, "u64": 64},
+    recs={("u32", 5): Rec("Spec.Sha1.Hash", ["a", "b", "c", "d", "e"])},
+    structs={"Context": StructSpec("Impl.Sha1.Context")},
+    types={"FixedBuffer": FIXEDBUF},
+    consts={"H": ("Impl.Sha1.H", SHA1_HASH)},      # the initial state: re-extracted table (Extracted/Sha1Ripemd.lean)
+    ext_fns={
+        "FixedBuffer::new": FB_NEW,
+        # the compression core on sixteen words: tied by Props/C01/KernelTieSha1.lean
+        "digest_block_u32": Ext("Impl.Sha1.digest_block_u32 {0} {1}", args=["out", "val"], fails="option", argty={1: TWords(32, 16)}),
+        # cryptoutil.rs (tied by Props/C01/GlueTieMd.lean): `assert!(dst.len() * 4 == input.len())`, big-endian words
+        "read_u32v_be": Ext("Impl.read_u32v_be {0.len} {1}", args=["out", "val"], fails="option"),
+        "write_u32_be": Ext("", args=["set", "val"], writes={0: "u32be {1}"}, arg_len={0: 4}),
+    },
+    ext_methods=dict(FB_METHODS), place_methods=FB_PLACE,
+)
+CTX = scope_re("impl Context")
+KERNELS += [
+    Fn(HSHA1, "Context", kind="check_struct", name="Context.struct_ok",
+       glue=[("h", "Spec.Sha1.Hash"), ("processed_bytes", "UInt64"), ("buffer", "Impl.FixedBuffer")]),
+    Fn(HSHA1, "digest_block", doc="`digest_block`: the length assertion, the big-endian word load, the core"),
+    Fn(HSHA1, "digest_blocks", doc="`digest_blocks`: one `digest_block` per 64-byte chunk"),
+    Fn(HSHA1, "mk_result", doc="`mk_result`: padding, the 64-bit big-endian BIT length, last block, the five output words"),
+    Fn(HSHA1, "new", CTX, owner="Context", name="Context.new_src", doc="`Context::new`"),
+    Fn(HSHA1, "update_mut", CTX, owner="Context", name="Context.update_mut_src", doc="`Context::update_mut`"),
+    Fn(HSHA1, "update", CTX, owner="Context", name="Context.update_src", doc="`Context::update`"),
+    Fn(HSHA1, "reset", CTX, owner="Context", name="Context.reset_src", doc="`Context::reset`"),
+    Fn(HSHA1, "finalize", CTX, owner="Context", name="Context.finalize_src", doc="`Context::finalize`"),
+    Fn(HSHA1, "finalize_reset", CTX, owner="Context", name="Context.finalize_reset_src", doc="`Context::finalize_reset`"),
+    Fn(HSHA1, "new", scope_re("impl Sha1"), owner="Sha1", name="Sha1.new_src", doc="`Sha1::new`"),
+]
+
+RMD_HASH = Ty("rec", "Spec.Ripemd160.Hash", fields=["a", "b", "c", "d", "e"], elem=TWord(32))
+HRIPEMD = DMod(
+    name="hashing_ripemd160", file="src/hashing/ripemd160.rs", prefix="HRipemd160.",
+    words={"u32": 32, "u64": 64},
+    recs={("u32", 5): Rec("Spec.Ripemd160.Hash", ["a", "b", "c", "d", "e"])},
+    structs={"Context": StructSpec("Impl.Ripemd160.Context")},
+    types={"FixedBuffer": FIXEDBUF},
+    consts={"H": ("Impl.Ripemd160.H", RMD_HASH)},
+    ext_fns={
+        "FixedBuffer::new": FB_NEW,
+        # the whole block function (word load + `process_block!`): tied by Props/C01/KernelTieRipemd160.lean
+        "process_msg_block": Ext("Impl.Ripemd160.process_msg_block {0} {1}", args=["val", "out"], fails="option"),
+        "write_u32_le": Ext("", args=["set", "val"], writes={0: "u32le {1}"}, arg_len={0: 4}),
+    },
+    ext_methods=dict(FB_METHODS), place_methods=FB_PLACE,
+)
+KERNELS += [
+    Fn(HRIPEMD, "Context", kind="check_struct", name="Context.struct_ok",
+       glue=[("h", "Spec.Ripemd160.Hash"), ("processed_bytes", "UInt64"), ("buffer", "Impl.FixedBuffer")]),
+    Fn(HRIPEMD, "process_msg_blocks", doc="`process_msg_blocks`: one `process_msg_block` per 64-byte chunk"),
+    Fn(HRIPEMD, "new", CTX, owner="Context", name="Context.new_src", doc="`Context::new`"),
+    Fn(HRIPEMD, "update_mut", CTX, owner="Context", name="Context.update_mut_src", doc="`Context::update_mut`"),
+    Fn(HRIPEMD, "update", CTX, owner="Context", name="Context.update_src", doc="`Context::update`"),
+    Fn(HRIPEMD, "reset", CTX, owner="Context", name="Context.reset_src", doc="`Context::reset`"),
+    Fn(HRIPEMD, "finalize_reset", CTX, owner="Context", name="Context.finalize_reset_src",
+       doc="`Context::finalize_reset`: padding, the bit length as two little-endian u32 (`<< 3`, `>> 29`), last block, output, reset"),
+    Fn(HRIPEMD, "finalize", CTX, owner="Context", name="Context.finalize_src", doc="`Context::finalize`"),
+    Fn(HRIPEMD, "new", scope_re("impl Ripemd160"), owner="Ripemd160", name="Ripemd160.new_src", doc="`Ripemd160::new`"),
+]
+
+# ===================================================================================================== src/hashing/sha2/mod.rs
+
+S2 = "Impl.Sha2."
+W8_32 = TExt("Spec.Sha2.W8 UInt32", name="W8<u32>")
+W8_64 = TExt("Spec.Sha2.W8 UInt64", name="W8<u64>")
+SHA2_INV = [  # the six `digest!` invocations: (algorithm, context, engine width, output fn, model descriptor)
+    ("Sha512", "Context512", 512), ("Sha384", "Context384", 512), ("Sha512Trunc256", "Context512_256", 512),
+    ("Sha512Trunc224", "Context512_224", 512), ("Sha256", "Context256", 256), ("Sha224", "Context224", 256)]
+HSHA2 = DMod(
+    name="hashing_sha2", file="src/hashing/sha2/mod.rs", macros=["digest"], prefix="HSha2.",
+    # `Engine256` / `Engine512` (buffering, padding, length field) and `eng256::Engine` / `eng512::Engine` (state words, output):
+    # the MODEL's types and functions (Impl/Sha2.lean), tied by tools/ktx_glue.py (Props/C01/GlueTieMd.lean)
+    structs=dict([("Engine256", StructSpec(S2 + "Engine256")), ("Engine512", StructSpec(S2 + "Engine512"))]
+                 + [(c, StructSpec(S2 + f"Ctx{w}")) for _, c, w in SHA2_INV]),
+    types={"FixedBuffer": FIXEDBUF, "eng256::Engine": TExt(S2 + "Eng256.Engine", name="eng256::Engine"),
+           "eng512::Engine": TExt(S2 + "Eng512.Engine", name="eng512::Engine")},
+    # initial hash values (`use initials::*`): re-extracted tables (Extracted/Sha2.lean)
+    consts=dict([(h, (S2 + h, W8_32)) for h in ("H256", "H224")]
+                + [(h, (S2 + h, W8_64)) for h in ("H512", "H384", "H512_TRUNC_256", "H512_TRUNC_224")]),
+    ext_fns={"Engine256::new": Ext(S2 + "Engine256.new {0}", args=["val"], ret=lambda want, rty: want, argty={0: W8_32}),
+             "Engine512::new": Ext(S2 + "Engine512.new {0}", args=["val"], ret=lambda want, rty: want, argty={0: W8_64})},
+    ext_methods=dict(
+        [((f"Engine{w}", "input"), Ext(S2 + f"Engine{w}.input {{self}} {{0}}", args=["val"], mut_self=True, fails="option")) for w in (256, 512)]
+        + [((f"Engine{w}", "finish"), Ext(S2 + f"Engine{w}.finish {{self}}", mut_self=True, fails="option")) for w in (256, 512)]
+        + [((f"Engine{w}", "reset"), Ext(S2 + f"Engine{w}.reset {{self}} {{0}}", args=["val"], mut_self=True,
+                                          argty={0: W8_32 if w == 256 else W8_64})) for w in (256, 512)]
+        + [((f"eng{w}::Engine", f"output_{b}bits_at"), Ext(S2 + f"Eng{w}.Engine.output_{b}bits_at {{self}} {{0}}", args=["out"], fails="option"))
+           for w, b in ((256, 224), (256, 256), (512, 224), (512, 256), (512, 384), (512, 512))]),
+)
+KERNELS += [
+    Fn(HSHA2, "Engine256", kind="check_struct", name="Engine256.struct_ok",
+       glue=[("processed_bytes", "Nat"), ("buffer", "Impl.FixedBuffer"), ("state", S2 + "Eng256.Engine"), ("finished", "Bool")]),
+    Fn(HSHA2, "Engine512", kind="check_struct", name="Engine512.struct_ok",
+       glue=[("processed_bytes", "Nat"), ("buffer", "Impl.FixedBuffer"), ("state", S2 + "Eng512.Engine")]),
+]
+for alg, ctxn, w in SHA2_INV:
+    sc = scope_re(f"impl {ctxn}")
+    KERNELS.append(Fn(HSHA2, ctxn, kind="check_struct", name=f"{ctxn}.struct_ok", glue=[("engine", S2 + f"Engine{w}")]))
+    for f in ("new", "update_mut", "update", "reset", "finalize", "finalize_reset"):
+        KERNELS.append(Fn(HSHA2, f, sc, owner=ctxn, name=f"{ctxn}.{f}_src", doc=f"`{ctxn}::{f}` (`digest!({w} {alg}, {ctxn}, …)`)"))
+    KERNELS.append(Fn(HSHA2, "new", scope_re(f"impl {alg}"), owner=alg, name=f"{alg}.new_src", doc=f"`{alg}::new`"))
+
+# ===================================================================================================== src/hashing/mod.rs
+
+
+def sponge_ext(alias, alg, dl, ds):
+    ty = TExt("Impl.Sha3.Context", name=f"{alias}::{alg}::Context")
+    return ({f"{alias}::{alg}::new": Ext("Impl.Sha3.Context.new", ret=ty)},
+            {(ty.name, "update"): Ext(f"Impl.Sha3.Context.update {dl} {{self}} {{0}}", args=["val"], ret=ty, fails="option"),
+             (ty.name, "finalize"): Ext(f"Impl.Sha3.Context.finalize {dl} {ds} {{self}}", ret=TBytes(dl), fails="option")})
+
+
+def blake2_ext(x, W, bits):
+    ty = TExt(f"Impl.Blake2.Context {W}", name=f"blake2{x}::Context<{bits}>")
+    P = f"Impl.Blake2.{x}"
+    return ({f"blake2{x}::Blake2{x}::<{bits}>::new": Ext(f"Impl.Blake2.Context.new {P} {bits}", ret=ty, fails="option")},
+            {(ty.name, "update"): Ext(f"Impl.Blake2.Context.update {P} Impl.Digest.blakeProfile {{self}} {{0}}", args=["val"], ret=ty, fails="option"),
+             (ty.name, "finalize"): Ext(f"Impl.Blake2.Context.finalize {P} Impl.Digest.blakeProfile {bits} {{self}}", ret=TBytes(bits // 8), fails="option")})
+
+
+_ef, _em = {}, {}
+ONESHOT_EXT = ([("sha3", f"Sha3_{b}", b // 8, 2, f"sha3_{b}") for b in (224, 256, 384, 512)]
+               + [("keccak", f"Keccak{b}", b // 8, 0, f"keccak{b}") for b in (224, 256, 384, 512)])
+for alias, alg, dl, ds, fn in ONESHOT_EXT:
+    a, b = sponge_ext(alias, alg, dl, ds)
+    _ef.update(a); _em.update(b)
+for x, W, bits in (("b", "UInt64", 224), ("b", "UInt64", 256), ("b", "UInt64", 384), ("b", "UInt64", 512), ("s", "UInt32", 224), ("s", "UInt32", 256)):
+    a, b = blake2_ext(x, W, bits)
+    _ef.update(a); _em.update(b)
+# the sponge and BLAKE2 contexts are the MODEL's (Impl/Sha3.lean, Impl/Blake2.lean; tied by tools/ktx_glue_sponge.py and the blake2
+# glue tie); the SHA-1 / SHA-2 / RIPEMD-160 contexts are the functions translated above
+HMOD = DMod(name="hashing_mod", file="src/hashing/mod.rs", prefix="Hashing.",
+            mods={"sha1": HSHA1, "sha2": HSHA2, "ripemd160": HRIPEMD}, ext_fns=_ef, ext_methods=_em)
+for f in (["blake2b_224", "blake2b_256", "blake2b_384", "blake2b_512", "blake2s_224", "blake2s_256", "sha1", "sha224", "sha256", "sha384", "sha512"]
+          + [x[4] for x in ONESHOT_EXT] + ["ripemd160"]):
+    KERNELS.append(Fn(HMOD, f, doc=f"`hashing::{f}` (one-shot)"))
 
 LSHA1, K = legacy_module("legacy_sha1", "src/sha1.rs", [], {"sha1": HSHA1},
                          [("Sha1", "sha1", "Sha1", "Context", plainc("Sha1"))])
@@ -121,7 +274,58 @@ LRIPEMD, K = legacy_module("legacy_ripemd160", "src/ripemd160.rs", [], {"ripemd1
                            [("Ripemd160", "ripemd160", "Ripemd160", "Context", plainc("Ripemd160"))])
 KERNELS += K
 
+# ===================================================================================================== src/blake2b.rs, src/blake2s.rs
+
+MACRES = TExt("Cx.Extracted.GlueMac.MacResult", name="MacResult")
+
+
+def blake2_module(x, X, W, keylen):
+    """x = "b" | "s"; X = "B" | "S"; W = the word type of the model; keylen = the N of `key: [u8; N]` (checked against the source)"""
+    alias, obj = f"blake2{x}", f"Blake2{x}"
+    P = f"Impl.Blake2.{x}"
+    C = "Impl.Blake2.ContextDyn"
+    ctx = TExt(f"{C} {W}", name=f"{alias}::ContextDyn")
+    key = f"{alias}::ContextDyn"
+    mod = DMod(
+        name=f"legacy_{alias}", file=f"src/{alias}.rs", prefix=f"{obj}.",
+        structs={obj: StructSpec(f"{obj}.Obj", generate=True)},
+        types={key: ctx, "MacResult": MACRES},
+        # `hashing::blake2{b,s}::ContextDyn`: the MODEL's functions (Impl/Blake2.lean; tied by Props/C01/KernelTieBlake2.lean and the
+        # blake2 glue tie); the byte-counter profile is the one Impl/Digest.lean fixes (`blakeProfile`)
+        ext_fns={
+            f"{key}::new": Ext(f"{C}.new {P} {{0}}", args=["val"], ret=ctx, fails="option"),
+            f"{key}::new_keyed": Ext(f"{C}.new_keyed {P} {{0}} {{1}}", args=["val", "val"], ret=ctx, fails="option"),
+            # src/mac.rs, translated by tools/ktx_glue_mac.py
+            "MacResult::new_from_owned": Ext("Cx.Extracted.GlueMac.MacResult.new_from_owned_src {0}", args=["val"], ret=MACRES),
+        },
+        ext_methods={
+            (key, "update_mut"): Ext(f"{C}.update_mut {P} Impl.Digest.blakeProfile {{self}} {{0}}", args=["val"], mut_self=True, fails="option"),
+            (key, "finalize_reset_at"): Ext(f"{C}.finalize_reset_at {P} Impl.Digest.blakeProfile {{self}} {{0.len}}", args=["out"], mut_self=True, fails="option"),
+            (key, "reset_with_key"): Ext(f"{C}.reset_with_key {P} {{self}} {{0}}", args=["val"], mut_self=True, fails="option"),
+            (key, "reset"): Ext(f"{C}.reset {P} {{self}}", mut_self=True),
+            (key, "output_bits"): Ext(f"{C}.output_bits {{self}}", ret=TNat("usize")),
+        },
+        # `blake2b::Blake2b::<0>::BLOCK_BYTES` = `Engine::BLOCK_BYTES`: re-extracted table (tools/extractors, Extracted/Blake2.lean)
+        consts={f"{alias}::{obj}::BLOCK_BYTES": (f"Extracted.Blake2.{X}_BLOCK_BYTES", TNat("usize"))},
+    )
+    inh, dig, mac = scope_re(f"impl {obj}"), scope_re(f"impl Digest for {obj}"), scope_re(f"impl Mac for {obj}")
+    ks = [Fn(mod, obj, kind="struct", name="Obj")]
+    for f in ("new", "new_keyed", "update", "finalize", "reset", "reset_with_key", alias):
+        ks.append(Fn(mod, f, inh, owner=obj, doc=f"`{obj}::{f}`"))
+    for f in ("input", "reset", "result", "output_bits", "block_size"):
+        ks.append(Fn(mod, f, dig, owner=obj, trait="Digest", name=f"Digest.{f}_src", doc=f"`impl Digest for {obj}`: `{f}`"))
+    for f in ("input", "reset", "raw_result", "result", "output_bytes"):
+        ks.append(Fn(mod, f, mac, owner=obj, trait="Mac", name=f"Mac.{f}_src", doc=f"`impl Mac for {obj}`: `{f}`"))
+    return mod, ks
+
+
+LB2B, K = blake2_module("b", "B", "UInt64", 64)
+KERNELS += K
+LB2S, K = blake2_module("s", "S", "UInt32", 32)
+KERNELS += K
+
 HEADER = """import CxVerif.Impl.Digest
+import CxVerif.Extracted.GlueMac
 /-!
   Extracted.GlueDigest — the stateful glue of the legacy `Digest` objects and of the hash contexts as the source says it
   NOW (tools/ktx_glue_digest.py; specs: tools/kernels/glue_digest.py).  `&mut` parameters are returned; `none` exactly where
